@@ -187,6 +187,7 @@ def main():
     # ---- bounded stand-ins (clauses no contract within reach decides): CLI scenarios on the real binary.
     # Labelled bounded in the evidence and never counted as discharged obligations.
     bounded_runs = []
+    known_bounded = []
     if not violations:
         import replay
         bl = []
@@ -205,13 +206,17 @@ def main():
                 v, j = replay.run_witness(wsc)
             except Exception as e:
                 v, j = False, dict(error=str(e))
-            bounded_runs.append(dict(scenario=wsc.get("scenario") or ("library witness: " + (wsc.get("src") or "")[:60]), violated=v, detail=j.get("detail") or j.get("error") or ""))
+            wid = wsc.get("scenario") or ("lib:" + hashlib.sha256(json.dumps(wsc, sort_keys=True).encode()).hexdigest()[:10])
+            det = j.get("detail") or j.get("error") or ""
+            if not det and j.get("runs"): det = j["runs"][-1].get("detail", "")
+            bounded_runs.append(dict(scenario=wsc.get("scenario") or ("library witness " + wid + ": " + (wsc.get("src") or "")[:60]), violated=v, detail=det))
             if v:
-                kf = next((k for k in known if k["prop"] == prop and k["label"] == "bounded:" + str(wsc.get("scenario"))), None)
+                kf = next((k for k in known if k["prop"] == prop and k["label"] == "bounded:" + wid), None)
                 if kf:
-                    print(f"KNOWN-FINDING: property={prop} bounded scenario {wsc.get('scenario')} — {kf['text']}")
+                    print(f"KNOWN-FINDING: property={prop} bounded witness {wid} — {kf['text']}")
+                    known_bounded.append(kf)
                     continue
-                violations.append(dict(unit="cli", fs="-", label="bounded:" + str(wsc.get("scenario") or "library-witness"), text="bounded CLI scenario (stand-in for clauses outside every contract)",
+                violations.append(dict(unit="cli", fs="-", label="bounded:" + wid, text="bounded CLI scenario (stand-in for clauses outside every contract)",
                                        diag=dict(message=j.get("detail"), fn="stylua (binary)", rendered=json.dumps(j)[:3000]), res=None, scenario=wsc, scenario_result=j))
     spec["_bounded_runs"] = bounded_runs
 
@@ -230,7 +235,7 @@ def main():
             print(f"VIOLATION property={prop} replay={path}{tail}")
         rc = 1
     write_evidence(prop, tier, seed, spec, results, kani_results, obligations, discharged, samples, violations, t0, units=units,
-                   known=[k for _, k in known_hits], solver_ms=solver_ms, fn_count=fn_count)
+                   known=[k for _, k in known_hits] + known_bounded, solver_ms=solver_ms, fn_count=fn_count)
     if rc == 0:
         print(f"OK property={prop} tier={tier}: {discharged}/{obligations} obligations discharged "
               f"({len(results)} verus runs, {len(kani_results)} kani sets, {time.time()-t0:.1f}s)")
